@@ -131,7 +131,7 @@ def check_resampled_tree(ctx, case, tin, tout, spacing, what):
     Xi, Xo = _xyzr(tin), _xyzr(tout)
     Xi64 = Xi.astype(np.float64)
     bi, bo = topo.branches(pid_i), topo.branches(pid_o)
-    scale = 1.0 + float(np.abs(Xi64[:, :3]).max())
+    scale = max(float(np.abs(Xi64[:, :3]).max()), 1e-30)  # (relative: any length unit)
     # critical nodes and their connectivity, by exact keys
     ci = Counter((_key(Xi[b[0]]), _key(Xi[b[-1]])) for b in bi)
     co = Counter((_key(Xo[b[0]]), _key(Xo[b[-1]])) for b in bo)
@@ -308,12 +308,12 @@ def _odd_tree(names=None):
 
 
 def _rejected_call_first(ctx, transform):
-    """An earlier call of the same transform object that fails half-way (one tree of a batch the
-    transform cannot handle: other column names; the caller's try/except skips it)."""
-    from swcgeom.core.swc import SWCNames
-
+    """An earlier call of the same transform object that fails half-way (one member of a batch
+    the transform cannot handle -- a path where a tree was expected; the caller's try/except skips
+    it).  (Until round 12 this was a tree with other column names, which the library could not
+    resample; it can now.)"""
     try:
-        transform(_odd_tree(SWCNames(id="n", pid="parent")))
+        transform("/data/cells/not-loaded-yet.swc")
     except Exception:
         ctx.count("rejected_calls_before_resampling")
 
@@ -389,7 +389,7 @@ def exec_branch(ctx, case):
     fp = contracts.fingerprint(tree)
     cum = _cum(poly)
     L = cum[-1]
-    scale = 1.0 + float(np.abs(poly[:, :3]).max())
+    scale = max(float(np.abs(poly[:, :3]).max()), 1e-30)  # (relative: any length unit)
     op = case["op"]
     if op == "linear":
         n = case["n"]
@@ -546,7 +546,7 @@ def run(ctx):
     rng = ctx.rng
     tap = probes.CallTap({"assembler": BranchTreeAssembler.__call__,
                           "resample": BranchIsometricResampler.resample})
-    geoms = ["growth", "plane", "gauss", "far", "big", "tiny", "coincident", "axis", "axis"]
+    geoms = ["growth", "plane", "gauss", "far", "big", "tiny", "micro", "coincident", "axis", "axis"]
     with tap:
         for k in range(ctx.scale(1700, 34000)):
             u = k % 10
